@@ -1,1 +1,58 @@
-//! Hooks for property C05 (empty until needed).
+//! Hooks for property C05 (check is sound and complete w.r.t. restorability).
+//!
+//! Thin wrappers around crate-private items: decryption with the repository key,
+//! the pack header parser, saving an (edited) index file, flat views of index blobs.
+use crate::{
+    Id, RusticResult,
+    backend::decrypt::{DecryptReadBackend, DecryptWriteBackend},
+    blob::BlobType,
+    repofile::{IndexBlob, IndexFile, PackHeader, PackHeaderRef},
+    repository::{Open, Repository},
+};
+
+/// Flat view of an index / pack-header entry.
+#[derive(Clone, Debug, PartialEq, Eq)]
+pub struct FlatBlob {
+    pub tree: bool,
+    pub id: Id,
+    pub offset: u32,
+    pub length: u32,
+    pub ulen: Option<u32>,
+}
+
+pub fn flat(b: &IndexBlob) -> FlatBlob {
+    FlatBlob {
+        tree: b.tpe == BlobType::Tree,
+        id: *b.id,
+        offset: b.location.offset,
+        length: b.location.length,
+        ulen: b.location.uncompressed_length.map(|n| n.get()),
+    }
+}
+
+/// Decrypt `data` with the repository key (`None` = does not authenticate / too short).
+pub fn decrypt<S: Open>(repo: &Repository<S>, data: &[u8]) -> Option<Vec<u8>> {
+    repo.dbe().decrypt(data).ok()
+}
+
+/// `PackHeader::from_binary` on a decrypted header.
+pub fn parse_header(plain: &[u8]) -> Option<Vec<FlatBlob>> {
+    PackHeader::from_binary(plain)
+        .ok()
+        .map(|h| h.into_blobs().iter().map(flat).collect())
+}
+
+/// `PackHeaderRef(blobs).size()` — header length (incl. crypto overhead) the index implies.
+pub fn header_size(blobs: &[IndexBlob]) -> u32 {
+    PackHeaderRef(blobs).size()
+}
+
+/// `PackHeaderRef(blobs).pack_size()` — pack size the index entries imply.
+pub fn computed_pack_size(blobs: &[IndexBlob]) -> u32 {
+    PackHeaderRef(blobs).pack_size()
+}
+
+/// Save an index file (encrypted with the repository key); returns its id.
+pub fn save_index<S: Open>(repo: &Repository<S>, file: &IndexFile) -> RusticResult<Id> {
+    repo.dbe().save_file(file)
+}
